@@ -362,8 +362,12 @@ func verifCompare(out *verifutil.Out, o *verifOpen, sigPrefix string) int {
 	nfail := 0
 	fail := func(field, what string) {
 		nfail++
+		sig := sigPrefix + field
+		if o.l.class == "cand" && len(o.l.candidates) > 0 {
+			sig = o.l.candidates[0] // every disagreement of a candidate layer carries the candidate's name
+		}
 		if nfail <= 6 {
-			out.Fail(sigPrefix+field, fmt.Sprintf("layer %s [%s]: %s", o.tag, o.l.label, what))
+			out.Fail(sig, fmt.Sprintf("layer %s [%s]: %s", o.tag, o.l.label, what))
 		}
 	}
 	for _, x := range a {
@@ -371,7 +375,7 @@ func verifCompare(out *verifutil.Out, o *verifOpen, sigPrefix string) int {
 		if ok && y != x.res {
 			if c := verifClassify(o.l, x, y); c == "ignore" {
 				continue
-			} else if c != "" {
+			} else if c != "" && o.l.class != "cand" {
 				nfail++
 				out.Fail(c, fmt.Sprintf("layer %s [%s]: %s: mem=%q db=%q", o.tag, o.l.label, x.key(), x.res, y))
 				continue
@@ -529,6 +533,14 @@ func (s *verifSession) openLayer(l *verifLayer) *verifOpen {
 func verifClassSuffix(l *verifLayer) string {
 	if l.class == "conf" {
 		return ""
+	}
+	// signatures name the root cause, not the scenario
+	switch l.variant {
+	case "hardlink-missing", "hardlink-self", "chunk-first":
+		// a single failing entry: bolt re-runs the Batch closure and the failure is lost
+		return ":db-swallows-init-error"
+	case "hardlink-to-dir", "hardlink-to-implicit-dir", "hardlink-to-root":
+		return ":db-hardlink-to-dir"
 	}
 	if l.variant != "" {
 		return ":" + l.variant
